@@ -39,7 +39,14 @@ def check_reader(R: bytes, chunks) -> list[tuple[str, str]]:
 
 def replay(case: dict) -> list[str]:
     R = bytes.fromhex(case["readout"])
-    if case["via"] == "bytes":
+    if case["via"] == "history":
+        r = P.new_reader()
+        got = []
+        k = case["k"]
+        for c in X.fixed(bytes.fromhex(case["noise"]), k) + X.fixed(bytes.fromhex(case["tail"]), max(k // 2, 3)):
+            got += r.read(c)
+        e = [x for m in got for x in P.readout_errors(m)]
+    elif case["via"] == "bytes":
         e = check_bytes(R)
     else:
         e = check_reader(R, X.split(R, case["cuts"]) if case["cuts"] != "bytewise" else X.bytewise(R))
@@ -151,6 +158,46 @@ def _work_ident(task) -> core.Part:
     return p
 
 
+def _work_history(task) -> core.Part:
+    """Readouts obtained from a reader WITH history (short noise, several KiB of periodic noise that trips the overflow
+    guard, earlier readouts): every returned object must satisfy the same oracle as one built from bytes."""
+    lo, step = task
+    from mc.props import C16
+
+    p = core.Part()
+    pool = P.readout_pool()
+    good, good2 = pool["six_crc"], pool["lf_crc"]
+    bad = good[:-6] + b"0000\r\n" if RP.dissect(good)["crc"] != 0 else good[:-6] + b"0001\r\n"
+    noises = [(lbl, nz) for lbl, nz in C16.long_noises("p1", True)] + [("none", b""), ("ident only", b"/ABC5xyz\r\n"), ("half readout", good[:40])]
+    for idx, (label, noise) in enumerate(noises):
+        if idx % step != lo:
+            continue
+        tail = good + bad + good2 + good
+        for k in (7, 64, 1000, 10**6):
+            r = P.new_reader()
+            got = []
+            try:
+                for c in X.fixed(noise, k) + X.fixed(tail, max(k // 2, 3)):
+                    got += r.read(c)
+            except Exception:  # noqa: BLE001
+                p.add("exceptions_seen_(C14)")
+                continue
+            p.add("executions")
+            p.add("readouts", len(got))
+            for m in got:
+                for kind, msg in P.readout_errors(m):
+                    if kind == "raises":
+                        continue
+                    p.viol(kind, f"{kind}:history:{label}:{k}:{m.as_bytes[:24]!r}", f"reader after noise {label} ({len(noise)} B, chunk {k}): {msg}",
+                           {"readout": m.as_bytes.hex(), "via": "history", "noise": noise.hex(), "tail": tail.hex(), "k": k}, size=len(noise))
+            nvalid = sum(1 for m in got if m.is_valid is True)
+            p.out(f"history:valid={min(nvalid, 3)}")
+        if p.full("valid_bad_crc") or p.full("invalid_good"):
+            p.capped = True
+            break
+    return p
+
+
 def main(run: core.Run) -> int:
     q = run.quick
     run.rule = ("per readout shape: the checksum field replaced by every 4-hex-digit value (2^16, plus case variants near the correct value and for 0000), "
@@ -174,11 +221,13 @@ def main(run: core.Run) -> int:
     run.merge(par.pmap(_work_flips, ft, seed=run.seed))
     good = [b"/ABC5", b"/ABC5x", b"/ABc5" + b"x" * 16, b"/ZZZ0\\2\\Wid", b"/KAM5", b"/LGF5E360", b"/XMX5LGBBFFB231314239", b"/ELL5\\253833635_A"]
     run.merge(par.pmap(_work_ident, [(i,) for i in BAD_IDENTS + good], seed=run.seed))
+    run.log("readers with history")
+    run.merge(par.pmap(_work_history, [(i, 32) for i in range(32)], seed=run.seed))
     tot = run.total
     tot.sample({"readout": pool["min_crc"].decode(), "checksum_field_values": "0000..FFFF", "valid_only_for": RP.dissect(pool["min_crc"])["trailer"].decode()})
     tot.sample({"readout": pool["min_crc"][:-6].decode() + "0000\r\n", "oracle": "must not be reported valid (CRC is not 0)"})
     run.bounds = {"checksum_field": f"{len(shapes)} shapes x all 65536 values", "bit_flips": "every single bit of 8 shapes" + ("" if q else "; every pair of bits of the two shortest"),
-                  "identification_lines": f"{len(BAD_IDENTS)} edge cases + {len(good)} legal, x LF/CRLF x with/without checksum", "chunkings": "one-shot, octet-wise, every single cut"}
+                  "reader_histories": "each long periodic noise of C16 (8.3/20 KiB) and 3 short noises, then good/bad/good readouts, 4 chunk sizes", "identification_lines": f"{len(BAD_IDENTS)} edge cases + {len(good)} legal, x LF/CRLF x with/without checksum", "chunkings": "one-shot, octet-wise, every single cut"}
     run.assumptions = ["mc/ref/p1.py: CRC-16/ARC over '/'..'!' and the identification-line syntax (bound to the captured readouts of tests/test_dlde.py)",
                        "a trailer counts as a checksum exactly when it is four hex digits (any letter case)"]
     ex = tot.c.get("executions", 0)
